@@ -85,8 +85,32 @@ def check_add_trace(res, events, algo, acting_kind):
     pending_add = False
     boundaries = {"T": 0, "U": 0}
     fresh_episode = False
+    logged = {}  # observation before the action -> (action, reward, next obs, term)
     for e in events:
         k = e["k"]
+        if k == "sample":
+            # every transition drawn for learning is one the environment produced
+            b = e["batch"]
+            obs = np.asarray(b["observation"], np.float64)
+            act = np.asarray(b["action"], np.float64)
+            rew = np.asarray(b["reward"], np.float64)
+            if obs.ndim == 3:      # subtrajectory view: first step of each window
+                obs, act = obs[:, 0], act[:, 0]
+            if rew.ndim == 2:
+                rew = rew[:, 0]
+            for i in range(obs.shape[0]):
+                hit = logged.get(tuple(obs[i].tolist()))
+                if hit is None or not (_eq(act[i], hit[0])
+                                       and abs(float(rew[i]) - hit[1]) < 1e-6):
+                    res.violation(
+                        f"C01/sampled_not_from_environment/{algo}",
+                        f"a transition sampled for learning starts at "
+                        f"{obs[i].tolist()} with action {act[i].tolist()} and "
+                        f"reward {float(rew[i])}: the environment "
+                        f"{'never acted from that observation' if hit is None else 'produced ' + str((np.asarray(hit[0]).tolist(), hit[1]))}")
+                    return
+            res.see("sampled_transitions_checked", int(obs.shape[0]))
+            continue
         if k == "reset":
             cur = e["obs"]
             fresh_episode = True
@@ -96,6 +120,9 @@ def check_add_trace(res, events, algo, acting_kind):
                               "an environment step was not stored before the next")
                 return
             prev_obs = cur
+            if cur is not None:
+                logged[tuple(np.asarray(cur, np.float64).tolist())] = (
+                    e["action"], float(e["reward"]), e["obs"], e["terminated"])
             cur = e["obs"]
             last_step = e
             pending_add = True
